@@ -34,6 +34,7 @@ var prefixNULL = map[string][]byte{
 	"sha384": {0x30, 0x41, 0x30, 0x0d, 0x06, 0x09, 0x60, 0x86, 0x48, 0x01, 0x65, 0x03, 0x04, 0x02, 0x02, 0x05, 0x00, 0x04, 0x30},
 	"sha512": {0x30, 0x51, 0x30, 0x0d, 0x06, 0x09, 0x60, 0x86, 0x48, 0x01, 0x65, 0x03, 0x04, 0x02, 0x03, 0x05, 0x00, 0x04, 0x40},
 	"md5":    {0x30, 0x20, 0x30, 0x0c, 0x06, 0x08, 0x2a, 0x86, 0x48, 0x86, 0xf7, 0x0d, 0x02, 0x05, 0x05, 0x00, 0x04, 0x10},
+	"ripemd160": {0x30, 0x21, 0x30, 0x09, 0x06, 0x05, 0x2b, 0x24, 0x03, 0x02, 0x01, 0x05, 0x00, 0x04, 0x14},
 	"sha224": {0x30, 0x2d, 0x30, 0x0d, 0x06, 0x09, 0x60, 0x86, 0x48, 0x01, 0x65, 0x03, 0x04, 0x02, 0x04, 0x05, 0x00, 0x04, 0x1c},
 }
 
@@ -125,6 +126,8 @@ type Case struct {
 	FlipBit  int
 	TBS      []byte
 	OtherTBS []byte
+	// IdOf (kind foreignid): the algorithm whose identifier precedes the digest ("none" = no identifier)
+	IdOf string `json:",omitempty"`
 	// SlotDates: dates carried by the slot certificate itself (must not influence the chain check):
 	// zero | now | past (36 h ago, inside an expired device certificate's window) | future (in 36 h)
 	SlotDates string
@@ -328,7 +331,7 @@ func genCase(t *rapid.T) Case {
 	}
 	c.EMHash = h
 	c.Form = rapid.IntRange(1, 2).Draw(t, "form")
-	c.Kind = rapid.SampledFrom([]string{"form1", "form2", "form1", "form2", "replace", "replace", "replace", "replace", "shortpad", "shortpad", "shortem", "wronghash", "otherdata", "sigflip", "tbsflip", "sigrandom", "ecdsa-device", "siglonger", "dervariant", "dervariant"}).Draw(t, "kind")
+	c.Kind = rapid.SampledFrom([]string{"form1", "form2", "form1", "form2", "replace", "replace", "replace", "replace", "shortpad", "shortpad", "shortem", "wronghash", "otherdata", "sigflip", "tbsflip", "sigrandom", "ecdsa-device", "siglonger", "dervariant", "dervariant", "foreignid", "foreignid"}).Draw(t, "kind")
 	switch c.Kind {
 	case "form1":
 		c.Form = 1
@@ -388,6 +391,16 @@ func genCase(t *rapid.T) Case {
 		c.EMHash = rapid.SampledFrom(others).Draw(t, "wrongHash")
 	case "otherdata":
 		c.OtherTBS = rapid.SliceOfN(rapid.Byte(), 0, 120).Draw(t, "otherTBS")
+	case "foreignid":
+		// the right digest of the right data behind the identifier of another algorithm (also ones of the same
+		// digest length), or behind no identifier at all
+		others := []string{"none", "none"}
+		for _, o := range []string{"sha1", "sha256", "sha384", "sha512", "md5", "sha224", "ripemd160", "ripemd160"} {
+			if o != c.EMHash {
+				others = append(others, o)
+			}
+		}
+		c.IdOf = rapid.SampledFrom(others).Draw(t, "idOf")
 	case "sigflip", "tbsflip":
 		c.FlipBit = rapid.IntRange(0, 1<<20).Draw(t, "flipBit")
 	case "siglonger":
@@ -448,6 +461,15 @@ func buildSignature(c Case) (tbs, sig []byte, err error) {
 	prefix := prefixNULL[c.EMHash]
 	if c.Form == 2 {
 		prefix = withoutNULL(prefix)
+	}
+	if c.Kind == "foreignid" {
+		prefix = nil
+		if c.IdOf != "none" {
+			prefix = prefixNULL[c.IdOf]
+			if c.Form == 2 {
+				prefix = withoutNULL(prefix)
+			}
+		}
 	}
 	signed := tbs
 	if c.Kind == "otherdata" {
@@ -667,7 +689,7 @@ func exec(c Case) (vh.Outcome, error) {
 	return out, nil
 }
 
-const rule = "the harness owns the device RSA private key and signs arbitrary encoded messages (sig = EM^d mod N): correct form 1 (with NULL) and form 2 (without) for SHA-1/256/384/512; one byte replaced at a position drawn per class (00, 01, first / last / inner padding byte, separator, identifier, digest); shortened padding with shifted tail and garbage; short EM with 0..7 padding bytes; full-length EM whose DigestInfo is another DER / BER spelling (junk inside the algorithm identifier or behind the digest with adjusted lengths, long-form or indefinite lengths, other parameters, junk behind it); identifier of another hash; digest of other data; single-bit flips of signature and body; arbitrary signature bytes; a genuine signature with one or two bytes added in front or one behind; genuine ECDSA signature under a non-RSA device key. A fifth of the cases keep the signature genuine and vary only the chain side (issuer, dates, extensions, the issuer's signature algorithm, constructor). Crossed with every signature-algorithm label 0..20, device key sizes 1024/1025/1031/1536/2047/2048 (a sixth of the root-issued device certificates carry the modulus under another public exponent: 3, 17, 2^31+1, 2^32+1, 2^40+1) (rarely 4096/4104/4608/6144; always, with 3072, in thorough), device certificate issued by a pool root / by a CA outside the pool / self-signed / expired / not yet valid, optionally carrying a vendor extension (Yubico arc, plain or critical) or another unknown critical extension (then only 'accepted => valid chain' is judged), signed by its issuer with SHA-256 / SHA-384 / SHA-512 or SHA-1 (which the platform verifier refuses by policy: only 'accepted => valid chain' is judged), pools of 1..3 roots handed over as a pool or (a third) as the two PEM files NewAttestor reads - the CA outside the pool is installed as this process's host trust store (SSL_CERT_FILE), i.e. a publicly trusted CA that is not configured -, slot certificate dated now / inside an expired device certificate's window / in the future / not at all (the chain must be judged at the current time). Oracle: the harness recomputes sig^e mod N itself; the verdict is the same when the call is repeated after a genuine attestation under the same device key; for *WithRSA SHA labels Attest = nil iff chain valid now and EM is form 1 or form 2 of the label's digest; DSA/ECDSA labels only-if; everything else must be refused. Non-trivial: every case except 'everything valid, form 1'."
+const rule = "the harness owns the device RSA private key and signs arbitrary encoded messages (sig = EM^d mod N): correct form 1 (with NULL) and form 2 (without) for SHA-1/256/384/512; one byte replaced at a position drawn per class (00, 01, first / last / inner padding byte, separator, identifier, digest); shortened padding with shifted tail and garbage; short EM with 0..7 padding bytes; full-length EM whose DigestInfo is another DER / BER spelling (junk inside the algorithm identifier or behind the digest with adjusted lengths, long-form or indefinite lengths, other parameters, junk behind it); identifier of another hash; the label's digest behind the identifier of another algorithm (incl. RIPEMD-160, whose digests are as long as SHA-1's) or behind no identifier; digest of other data; single-bit flips of signature and body; arbitrary signature bytes; a genuine signature with one or two bytes added in front or one behind; genuine ECDSA signature under a non-RSA device key. A fifth of the cases keep the signature genuine and vary only the chain side (issuer, dates, extensions, the issuer's signature algorithm, constructor). Crossed with every signature-algorithm label 0..20, device key sizes 1024/1025/1031/1536/2047/2048 (a sixth of the root-issued device certificates carry the modulus under another public exponent: 3, 17, 2^31+1, 2^32+1, 2^40+1) (rarely 4096/4104/4608/6144; always, with 3072, in thorough), device certificate issued by a pool root / by a CA outside the pool / self-signed / expired / not yet valid, optionally carrying a vendor extension (Yubico arc, plain or critical) or another unknown critical extension (then only 'accepted => valid chain' is judged), signed by its issuer with SHA-256 / SHA-384 / SHA-512 or SHA-1 (which the platform verifier refuses by policy: only 'accepted => valid chain' is judged), pools of 1..3 roots handed over as a pool or (a third) as the two PEM files NewAttestor reads - the CA outside the pool is installed as this process's host trust store (SSL_CERT_FILE), i.e. a publicly trusted CA that is not configured -, slot certificate dated now / inside an expired device certificate's window / in the future / not at all (the chain must be judged at the current time). Oracle: the harness recomputes sig^e mod N itself; the verdict is the same when the call is repeated after a genuine attestation under the same device key; for *WithRSA SHA labels Attest = nil iff chain valid now and EM is form 1 or form 2 of the label's digest; DSA/ECDSA labels only-if; everything else must be refused. Non-trivial: every case except 'everything valid, form 1'."
 
 func TestC06Attest(t *testing.T) {
 	vh.Run(t, vh.Spec[Case]{Property: "C06", Name: "TestC06Attest", Rule: rule, Gen: genCase, Exec: exec})
